@@ -345,6 +345,57 @@ def check_genbank_permutations(spec, ctx):
                 break
 
 
+def check_genbank_record_order(spec, ctx):
+    """several records in one file, written in every order: what is parsed for each sequence is the same whatever the order of
+    the records (the records reuse each other's locus tags; one of them may hold two genes with the same tag)"""
+    ctx.nt("records_permuted")
+    texts = []
+    with warnings.catch_warnings():
+        warnings.simplefilter("ignore")
+        for k_, part in enumerate(spec["records"]):
+            rec_spec = {"obj": json.loads(json.dumps(part["obj"])), "genome": part["genome"]}
+            coll_, t_ = gb_export(rec_spec, spec["flavor"], False)
+            texts.append(t_.replace("chr1", "seq%d" % k_))
+        base = None
+        for perm in itertools.permutations(range(len(texts))):
+            joined = "".join(texts[i] for i in perm)
+            for mode in ("HYBRID", "LOCUS_TAG"):
+                try:
+                    recs = list(parse_genbank(io.StringIO(joined), gbk_type=GenBankParserType[mode]))
+                    got = {r.annotation.sequence_name if hasattr(r, "annotation") else str(i): canon_genes(r.to_annotation_collection()) for i, r in enumerate(recs)}
+                    got = {k: v for k, v in got.items()}
+                except Exception as e:   # a refusal must not depend on the order either
+                    got = {"EXC": type(e).__name__}
+                if base is None:
+                    base = {}
+                if mode not in base:
+                    base[mode] = got
+                elif got != base[mode]:
+                    ctx.fail("genbank_order_of_records_dependence[%s]" % mode, {"perm": list(perm), "got": json.dumps(got)[:300], "base": json.dumps(base[mode])[:300]})
+                    return
+    if any(len({g.get("locus_tag") for g in p_["obj"]["genes"]}) < len(p_["obj"]["genes"]) for p_ in spec["records"]):
+        ctx.label("locus_tag_collision_on_one_record")
+
+
+@st.composite
+def strat_gb_record_order(draw, tier="quick"):
+    n = draw(st.integers(2, 3))
+    recs = []
+    for k in range(n):
+        r = draw(gb_one_record("", max_genes=3, isoforms=False))   # same tag scheme in every record: locus tags are reused across records
+        for i, g in enumerate(r["obj"]["genes"]):
+            g["locus_tag"] = "LT_%03d" % i
+        r["obj"]["feature_collections"] = []
+        recs.append({"obj": r["obj"], "genome": r["genome"]})
+    if draw(st.booleans()):
+        # on one record two genes share a locus tag
+        k = draw(st.integers(0, n - 1))
+        gs = recs[k]["obj"]["genes"]
+        if len(gs) >= 2:
+            gs[1]["locus_tag"] = gs[0]["locus_tag"]
+    return {"records": recs, "flavor": draw(st.sampled_from(["PROKARYOTIC", "EUKARYOTIC"]))}
+
+
 @st.composite
 def strat_gb_perm(draw, tier="quick"):
     sp = draw(gb_one_record("", isoforms=False))   # one record, one gene model per gene (what the LOCUS_TAG grouping is specified for)
@@ -378,6 +429,9 @@ PROP = Prop(
             rule="no recognised key present: name and id fall back to the first word of /note"),
         Leg("types_merge", check_types_merge, strategy=strat_types, n_quick=1500, n_thorough=15000, must_hit=["type_key_present", "shared_keys"],
             rule="type-like qualifier keys (*_class, gbkey, *_type; mixed case; substrings) and near misses; pairs of qualifier dictionaries for merge_qualifiers"),
+        Leg("genbank_record_order", check_genbank_record_order, strategy=strat_gb_record_order, n_quick=15, n_thorough=200, shards_quick=8,
+            must_hit=["locus_tag_collision_on_one_record"],
+            rule="2..3 GenBank records that reuse each other's locus tags (one of them possibly holding two genes with one tag), concatenated in every order and parsed in HYBRID and LOCUS_TAG mode: the genes parsed for each sequence (or the refusal) must not depend on the order of the records"),
         Leg("genbank_permutations", check_genbank_permutations, strategy=strat_gb_perm, n_quick=25, n_thorough=300, shards_quick=8,
             must_hit=["permuted_genbank"],
             rule="locus-tag-complete GenBank records (C12 generator) with the feature table permuted (all permutations for <=6 features, 24 pseudo-random ones beyond), parsed in LOCUS_TAG mode"),
